@@ -128,6 +128,8 @@ def long_inputs(rnd, rules, nnt, maxt, k=2, depths=(20, 60, 150, 400)):
     them, for grammars whose reference canonical LR(1) table (full mode) is conflict-free - the grammar is then unambiguous
     and the reference LR run decides membership and yields the unique tree; -> [(word, reference table)]"""
     terms = [("t", i) for i in range(1, maxt + 1)]
+    if cyclic(rules, nnt):
+        return []          # (a conflict-free table of a cyclic grammar is KF4 territory: no LR run is an oracle there)
     tab = lr.build(rules, nnt, 0, False, terms)
     if tab["conflicts"]:
         return []
